@@ -252,13 +252,35 @@ def run_engine(run, which):
         for law, d in fl:
             if law.startswith(want):
                 run.violation("name:" + s, f"{law} for {s!r}: {d}", {"name": s})
+    # long names: the laws are about names of any length (runs of one class, many escapes in one name)
+    nlong = 0
+    for _ in range(2000 if q else 40000):
+        n = rng.choice([8, 15, 16, 17, 18, 24, 33, 40, 65, 100])
+        if rng.random() < 0.5:
+            c0 = rng.choice(ALLC + ["H", "U", "S"])
+            cls = [c0] * n
+            if rng.random() < 0.5:
+                cls[rng.randrange(n)] = rng.choice(ALLC)
+        else:
+            cls = [rng.choice(ALLC + ["H", "U", "S", "S", "S"]) for _ in range(n)]
+        s = "".join(rng.choice(reps[c]) for c in cls)
+        if not s.strip("."):
+            continue
+        fl, pred = check_name(s, cls, want_spec=False)
+        nlong += 1
+        for law, d in fl:
+            if law.startswith(want):
+                run.violation("name:" + s, f"{law} for {s!r}: {d}", {"name": s})
+    nrand += nlong
+    run.cov["long_names"] = nlong
     run.cov["evaluations"] += nrand
     run.cov["random_names"] = nrand
     run.sample({"name": "a-" + chr(0x1F980), "classes": ["S", "H", "N"], "spec_tokens": table.get("SHN")})
     run.sample({"name": "_-x", "spec_tokens": table.get("UHS")})
     return run.finish("model_checking",
                       "every Unicode code point (exhaustive, 1,112,064 scalar values) in %d positional contexts "
-                      "(quick: 2 contexts for all planes + 8 for the BMP) + random names over all classes; each case is "
+                      "(quick: 2 contexts for all planes + 8 for the BMP) + random names over all classes, also 8 to 100 characters long "
+                      "(runs of one class, many escapes); each case is "
                       "one name given to the real mangle/unmangle, checked against the laws and the concretised spec "
                       "table" % len(CONTEXTS),
                       assumptions=["unicodedata (names, NFKC) and str.isidentifier are the Unicode reference",
